@@ -16,13 +16,38 @@ TRUST = (
     'Holds on the executions observed, not a proof.'
 )
 
+TEXT = {
+    'C01': ('runtime contract on Trajectory.positions + ground-truth reference model on displacements / cumulative displacements / distances, metamorphic integer-shift twin, hostile face-adjacent coordinates',
+            'Range contract [0,1) is asserted on every call of the real Trajectory.positions getter; displacements, cumulative displacements and distances are compared with the unwrapped ground-truth walk the harness generated; every case is re-run with per-coordinate integer lattice shifts. Sampled (hundreds to tens of thousands of walks over all lattice classes with injected face values and near-half-cell steps), not exhaustive.'),
+    'C02': ('reference-model monitor on transitions_between_sites(...).states/.inner_states with brute-force lattice-image enumeration; K1 classifier by direct MDAnalysis call',
+            'Every atom-frame of margin-controlled and random systems in all lattice classes (rotated, sites on faces, never-visited label members, float/dict/automatic radius, inner fractions) is compared with an independent image-enumeration oracle; hook monitors record the radius actually used. Sampled; third-party misses (K1) are tolerated only when a direct MDAnalysis call reproduces them.'),
+    'C03': ('runtime reference-model monitor on Transitions.events/states_prev/states_next over exhaustive short histories + random long histories through the real pipeline',
+            'Every (site, inner-site) history of one atom up to length 5 (quick) / 6 (thorough) over 3 sites is realised geometrically and run through the real pipeline; the monitor compares the event table, its replay and the previous/next views with a loop model. Random multi-atom long histories widen it. Exhaustive inside the bound, sampled outside.'),
+    'C04': ('reference-model monitor on Jumps.data via Transitions.jumps(minimal_residence=r): exhaustive bounded histories x residences + random long histories',
+            'All site histories up to length 7/9 (default settings) and all (site, inner) histories up to length 5/6 (inner fraction 0.5) are pushed through the real pipeline for residences {0,1,2,3,5}; default jumps must equal the visited-site model exactly, stricter settings must be state-consistent subsets, monotone in the residence. Exhaustive inside the bound.'),
+    'C05': ('state-based contracts on Transitions.matrix/occupancy/atom_locations and Jumps.matrix/_counter/counter/jump_diffusivity/to_graph/rates, recomputed by loops from the tables the object holds; K2 classifier',
+            'Each bookkeeping method of the real objects is re-derived from the event / jump / state tables at call time with explicit loops and image-enumeration distances. Sampled over pipeline systems; the pinned no-site folding of Transitions.matrix (K2) is tolerated only cell-by-cell.'),
+    'C06': ('reference-model monitor: O(T^2) time-origin MSD, Cartesian distances and tracer diffusivity from harness ground truth',
+            'MSD of every atom and lag, distances from the start and tracer diffusivity (dimensions 1-3) of the real functions are compared with the definition evaluated on the unwrapped ground-truth walk, in all lattice classes with many face crossings. Sampled.'),
+    'C07': ('metamorphic monitor: full pipeline run in 5 representations (rotation, voxel translation, atom permutation, site permutation) and compared up to relabelling; K1 classifier',
+            'States, events, jumps, matrices, diffusivities, occupancies, collective counts, RDFs, metrics, density and free-energy grids and path costs of two real runs on the same physical system must agree up to the relabelling. Sampled (about 100 / 2500 systems x 4 transformations).'),
+    'C11': ('reference-model monitor: brute-force pair histograms (image enumeration) per species pair and per (state, symbol) with loop fill-model of the states',
+            'Every bin of both public RDF functions is compared with explicit pair loops; the per-state partition is decided by re-deriving the state of every (frame, atom) from the reported site states. Sampled over multi-label systems.'),
+    'C12': ('reference-model monitor: O(n^2) pair enumeration over pipeline jumps and injected arbitrary jump tables (long-transit, simultaneous, same-atom), windows and cut-offs',
+            'The set of collective pairs, coll_jumps, solo/collective counts and the default window of the real Collective / Jumps.collective are compared with an exhaustive pair enumeration using independent distances, for pipeline jump tables and for arbitrary tables injected through the public conversion_method parameter. Sampled.'),
+    'C13': ('ground-truth reference model of drift correction + metamorphic injected rigid drift, all argument forms and species object kinds',
+            'drift() and apply_drift_correction() are compared with a ground-truth model (mean reference step removed, first frame kept); idempotence, metadata preservation, fixed/floating equivalence and invariance to an injected rigid translation are asserted on every case. Sampled.'),
+    'C14': ('formula oracles with CODATA constants on ground truth + metamorphic cell / time scaling between two real runs',
+            'All TrajectoryMetrics / TrajectoryMetricsStd outputs are compared with their defining formulas on harness ground truth and with the k^2, k, 1/k^3, 1/s scaling relations between real runs. Sampled.'),
+    'C15': ('history checker: random API call sequences on a pool of live trajectories vs a sequential numpy model, every live object probed after every step',
+            'After each of 10-40 random operations (mode switches, filters, slices, split, extend, analysis queries) every live trajectory is probed on a deep copy and compared with the model; catches call-order dependent corruption. Sampled (hundreds to thousands of histories).'),
+    'C19': ('offline checker over split outputs: every part event mapped back to exactly one original event with one offset per part; part jumps subset of whole; K7 classifier',
+            'For all n_parts up to the number of events on small systems and sampled values on large ones, states must concatenate, events must partition with consistent non-negative re-basing, parts must be chronological and part jumps must be jumps of the whole; Trajectory.split parts must be ordered contiguous ranges. Sampled systems, exhaustive n_parts on small ones.'),
+}
+
 CLAIMED = {
-    'C03': dict(
-        level='exploration',
-        technique='runtime reference-model monitor on Transitions.events/states_prev/states_next over exhaustive short histories + random long histories through the real pipeline',
-        text='Every (site, inner-site) history of one atom up to length 5 (quick) / 6 (thorough) over 3 sites is realised geometrically and run through the real pipeline; the monitor compares the event table, its replay and the previous/next views with a loop model. Random multi-atom long histories widen it. Exhaustive inside the bound, sampled outside.',
-        design='DESIGN.md §2 C03',
-    ),
+    pid: dict(level='exploration', technique=t, text=x, design=f'DESIGN.md §2 {pid}')
+    for pid, (t, x) in TEXT.items()
 }
 
 NOT_YET = 'check under construction; will be claimed once its monitor is built and validated against seeded mutants'
